@@ -126,6 +126,30 @@ def check(run):
                 if v and found is None:
                     found = {"kind": "input", "what": "a re-used object returned without the non-convergence warning but: " + v,
                              "case": sc.describe(sps0, x00, T, P, solver.DEFAULT_CONTROLS), "history": [list(t) for t in seq]}
+    # (f) the previous state of a re-used object is not a starting estimate either: an object solved cold and then moved to a much hotter
+    #     state must return what a fresh object returns there (species above x = 1e-5 within the envelope), or announce a failure
+    for sps0, x00 in shipped_sets:
+        for (Tc, Th) in ([(1000.0, 3000.0), (1000.0, 6000.0), (1500.0, 4000.0), (1200.0, 9000.0)] if thorough else [(1000.0, 3000.0), (1500.0, 6000.0)]):
+            with _w.catch_warnings(record=True) as wl:
+                _w.simplefilter("always")
+                try:
+                    m = mpc.mixture.LTE(sps0, x00, Tc, 101325.0, *solver.DEFAULT_CONTROLS)
+                    m.calculate_composition()
+                    m.T = Th
+                    nd_h = np.asarray(m.calculate_composition(), dtype=float)
+                    ref_h = np.asarray(mpc.mixture.LTE(sps0, x00, Th, 101325.0, *solver.DEFAULT_CONTROLS).calculate_composition(), dtype=float)
+                except Exception:  # noqa: BLE001
+                    continue
+                if any("Minimiser could not find" in str(x.message) for x in wl):
+                    hist["moved:announced"] = hist.get("moved:announced", 0) + 1
+                    continue
+            hist["moved:ok"] = hist.get("moved:ok", 0) + 1
+            run.count(1, distinct_key=("moved", tuple(sp.name for sp in sps0), Tc, Th), nontrivial=True)
+            dv = majors_differ(nd_h, ref_h)
+            if dv > ENVELOPE and found is None:
+                found = {"kind": "history", "what": f"an object solved at {Tc} K and moved to {Th} K returns, un-warned, a composition that differs from a fresh "
+                                                     f"object's by {dv:.3e} (species above x = 1e-5): the result depends on where the iteration started",
+                         "case": sc.describe(sps0, x00, Th, 101325.0, solver.DEFAULT_CONTROLS), "history": [[Tc, 101325.0], [Th, 101325.0]]}
     run.cov["outcome_histogram"] = hist
     for (m, nd, warned) in runs[:3]:
         run.sample({"species": [s.name for s in m.species], "T": m.T, "P": m.P, "controls": [m.gfe_initial_particles, m.gfe_rtol, m.gfe_max_iter],
